@@ -19,6 +19,15 @@ Session::Session(IWorld* shared)
     fault_token_seed = mix64(shared->spec.mseed, 0xFA18);
 }
 
+Session::Session(std::unique_ptr<IWorld> owned)
+{
+    world_owner = std::move(owned);
+    world = world_owner.get();
+    ctx.seam[0] = &world->ctlA;
+    ctx.seam[1] = &world->ctlB;
+    fault_token_seed = mix64(world->spec.mseed, 0xFA19);
+}
+
 Session::~Session()
 {
     // solvers hold references into the world: destroy them first
